@@ -456,6 +456,12 @@ theorem Bay.propagate_raw {b bF : Bay} {em : List (Nat × Value)} (wf : b.WF)
 
 /-! ### the writes of an event -/
 
+theorem Bay.Writes.mono {ok ok' : Nat → Prop} {b b1 : Bay} (himp : ∀ c, ok c → ok' c)
+    (h : Bay.Writes ok b b1) : Bay.Writes ok' b b1 := by
+  induction h with
+  | nil => exact .nil _
+  | snoc _ hok hf hw ih => exact .snoc ih (himp _ hok) hf hw
+
 theorem Bay.Writes.inv {ok : Nat → Prop} {b b1 : Bay} (wf : b.WF) (h : Bay.Writes ok b b1) :
     b1.WF ∧ b1.cbs = b.cbs ∧ b1.selected = b.selected ∧ b1.muxes = b.muxes ∧
     (∀ c, ¬ ok c → b1.chan c = b.chan c) ∧
